@@ -269,6 +269,8 @@ inductive Call where
 
 /-- The one response, as far as the property looks at it. -/
 structure Reply where
+  /-- the QR bit of the response header (`MessageType::Response` in every path) -/
+  qr : Bool
   /-- full response code (header low bits + OPT high bits); `none`: decided by zone content -/
   rcode : Option Nat
   id : Nat
@@ -297,14 +299,14 @@ inductive Gate where
 .error_msg(&header, rcode)` — `Metadata::response_from_request` copies id, opcode, RD, CD;
 no EDNS even if the request had one. -/
 def gateError (h : Header) (q : Option Question) (rc : Nat) : Reply :=
-  { rcode := some rc, id := h.id, opcode := h.opcode, rd := h.rd, cd := h.cd, aa := false,
+  { qr := true, rcode := some rc, id := h.id, opcode := h.opcode, rd := h.rd, cd := h.cd, aa := false,
     ra := false, echo := q.isSome, opt := false, via := none, calls := [] }
 
 /-- `send_error_response` of the catalog: question echoed, the response EDNS attached when the
 request had EDNS (the high rcode bits go into the OPT). -/
 def catError (h : Header) (hasEdns : Bool) (rc : Nat) (via : Option Nat) (calls : List Call) :
     Reply :=
-  { rcode := some rc, id := h.id, opcode := h.opcode, rd := h.rd, cd := h.cd, aa := false,
+  { qr := true, rcode := some rc, id := h.id, opcode := h.opcode, rd := h.rd, cd := h.cd, aa := false,
     ra := false, echo := true, opt := hasEdns, via := via, calls := calls }
 
 /-- response code of `build_authoritative_response` / `build_forwarded_response` -/
@@ -328,7 +330,7 @@ def builtRcode (zt : ZType) (rd : Bool) (r : LRes) : Option Nat :=
 /-- the response built from a final lookup result by the handler that ran `search` -/
 def builtReply (h : Header) (hasEdns : Bool) (z : Zone) (hd : Handler) (r : LRes)
     (calls : List Call) : Reply :=
-  { rcode := builtRcode hd.ztype h.rd r, id := h.id, opcode := h.opcode, rd := h.rd, cd := h.cd,
+  { qr := true, rcode := builtRcode hd.ztype h.rd r, id := h.id, opcode := h.opcode, rd := h.rd, cd := h.cd,
     aa := hd.ztype != .external, ra := hd.ztype == .external, echo := true, opt := hasEdns,
     via := some z.idx, calls := calls }
 
@@ -373,7 +375,7 @@ def runXfer (h : Header) (hasEdns : Bool) (z : Zone) : List (Nat × Handler) →
           (if rc = RC_REFUSED ∨ rc = RC_NOTAUTH then some rc
            else if rc = RC_NXDOMAIN then some RC_NXDOMAIN else some RC_NOERROR, false)
         | .zone => (none, false)
-      { rcode := rc, id := h.id, opcode := h.opcode, rd := h.rd, cd := h.cd, aa := aa, ra := false,
+      { qr := true, rcode := rc, id := h.id, opcode := h.opcode, rd := h.rd, cd := h.cd, aa := aa, ra := false,
         echo := true, opt := hasEdns, via := some z.idx, calls := cs }
 
 /-- `handlers.iter().enumerate()` -/
@@ -406,7 +408,7 @@ def catUpdate (cat : Catalog) (h : Header) (q : Question) (hasEdns : Bool) : Gat
           | .secondary => (RC_NOTIMP, [])
           | .primary => (hd.update, [.update z.idx 0])
           | .external => (RC_NOTAUTH, [])
-        .reply { rcode := some rc, id := h.id, opcode := OP_UPDATE, rd := false, cd := false,
+        .reply { qr := true, rcode := some rc, id := h.id, opcode := OP_UPDATE, rd := false, cd := false,
                  aa := false, ra := false, echo := true, opt := hasEdns, via := some z.idx,
                  calls := cs }
       | [] => .reply (catError h hasEdns RC_SERVFAIL (some z.idx) [])
